@@ -32,6 +32,11 @@ theorem C12_fixpoint : c12.fixpoint = true := by decide +kernel
     `routesLock` is the only nesting -/
 theorem C12_discipline : c12.report = { orderEdges := [(0, 1)] } := by decide +kernel
 
+/-- every acquisition is released by an immediately following `defer`, or nothing is called while
+    the lock is held: a panic (a user If-condition inside route selection, say) cannot leave a lock
+    held and block the next Add/Remove for ever -/
+theorem C12_panic_safe : panicSafe fnNames.length items = true := by decide +kernel
+
 theorem C12_lock_order_acyclic : acyclic c12.report.orderEdges = true := by decide +kernel
 
 /-! The general theorems about the interleaving semantics (Lemmas/Lockset.lean) are audited with this property: -/
